@@ -11,8 +11,15 @@ The QUIC transport (aioquic connection, UDP datagrams, crypto) is a stub: the
 harness plays the part of ``QuicLayer`` at the ``QuicStreamEvent`` /
 ``SendQuicStreamData`` seam and only produces event sequences a transport could
 deliver (RFC 9000 section 2.1/3: a peer only opens streams of its own initiator
-class, only sends on streams it may send on, nothing after its FIN/RESET, nothing
-after the connection is closed).
+class, only sends on streams it may send on, nothing after the connection is closed).
+After a peer ended its sending direction (FIN or RESET_STREAM) the only further events
+are the ones aioquic 1.2 really emits for frames that arrive late: a StreamReset for a
+RESET_STREAM that follows the FIN ("Data Sent" -> "Reset Sent", RFC 9000 section 3.1) or
+repeats an earlier reset, an empty StreamDataReceived(end_stream=True) for a retransmitted
+FIN, and in-order STREAM data that was overtaken by the RESET_STREAM -- and only while
+the transport still keeps the stream's state: a bidirectional stream (mitmproxy's own
+FIN/RESET may stay unacknowledged), or a receive-only stream within the same datagram
+batch as the ending event (aioquic discards it at the next transmit).
 
 Oracle (from the statement, RFC 9000 section 2.1): every payload carries a tag naming
 the endpoint that sent it, so the stream pairing is *observed* from the commands
@@ -54,7 +61,11 @@ RULE = ("seeded interleavings (<= 40 steps) of QuicStreamDataReceived (data, dat
         "(incl. peers answering on streams mitmproxy opened towards them, events queued before the upstream connection "
         "is up, a few QUIC datagrams), with the completions of the children's blocking hooks (next_layer, tcp_start, "
         "tcp_message, tcp_end, udp_*) and of the upstream OpenConnection delivered late in any order; force_raw and "
-        "NextLayer-decided stream layers, with and without flow hooks; non-trivial = >= 2 streams carried data and a "
+        "NextLayer-decided stream layers, with and without flow hooks; plus a directed family (30 %) and sprinkled ops "
+        "delivering events for a stream id AFTER that peer ended it and after the stream was shut down in both "
+        "directions (RESET_STREAM after FIN, repeated reset, retransmitted empty FIN, data overtaken by the reset; from "
+        "either side; receive-only streams only within the same datagram batch), followed by new streams of the same "
+        "class; non-trivial = >= 2 streams carried data and a "
         "completion was delivered late or an end/reset/close signal was relayed; distinct = distinct abstract "
         "event/command logs")
 COMPONENTS_REAL = ["RawQuicLayer", "QuicStreamLayer", "QuicStreamNextLayer", "NextLayer", "TCPLayer", "UDPLayer",
@@ -67,10 +78,18 @@ ASSUMPTIONS = ["the stub delivers only stream events a conforming QUIC transport
                "connection-state bookkeeping outside the layer is limited to what test/mitmproxy/proxy/tutils.Playbook does",
                "a FIN is 'justified' only by a FIN of the paired stream (a RESET must stay a RESET); commands addressed to a "
                "connection that is already closed or being closed by mitmproxy are not judged",
-               "STOP_SENDING from a peer (QuicStreamStopSending) is outside the property's quantifier and is not generated"]
+               "STOP_SENDING from a peer (QuicStreamStopSending) is outside the property's quantifier and is not generated",
+               "events after a peer's own FIN/RESET are limited to what aioquic 1.2 emits (StreamReset; empty "
+               "StreamDataReceived(end_stream=True); data after a reset) while it still holds the stream: bidirectional "
+               "streams any time (mitmproxy's FIN may stay unacknowledged), receive-only streams only in the batch of the "
+               "ending event; a RESET on the paired stream is also justified by such a late RESET_STREAM of the same code",
+               "mitmproxy opens at most as many streams of a class towards one peer as the other peer has opened in that "
+               "class (1:1 counterpart), judged on the commands only"]
 EXPECTED_PROBES = ["pairs_observed", "server_initiated_pairs", "uni_pairs", "peer_answered_on_mitm_stream", "late_hook_completion",
                    "events_queued_before_upstream_open", "reset_relayed", "fin_relayed", "conn_close_with_open_streams",
-                   "dataless_stream_matched"]
+                   "dataless_stream_matched", "event_after_full_close", "late_reset_after_fin", "duplicate_reset",
+                   "duplicate_fin", "late_data_after_reset", "late_event_on_mitm_opened_stream",
+                   "stream_opened_after_late_event"]
 
 MAX_OPS = 40
 _OPTS = None
@@ -143,6 +162,11 @@ class World:
         self.pev = {}         # (conn, sid) -> list of (seq, kind, arg)
         self.ended = {}       # (conn, sid) -> ("fin"|"reset", seq, code, step)
         self.opened = {}      # (conn, sid) -> seq of first peer event (peer-initiated ids only)
+        self.late = {}        # (conn, sid) -> list of (seq, kind, arg): events delivered after the peer's own FIN/RESET
+        self.end_batch = {}   # (conn, sid) -> datagram batch in which the peer's FIN/RESET was delivered
+        self.batch = 0        # consecutive peer events of one connection with no other event in between = one batch
+        self.batch_src = None
+        self._feed_src = None
         self.obs = {}         # (conn, sid) -> list of (seq, step, kind, arg)
         self.announced = {"c": [], "s": []}
         self.dgram_sent = {"c": [], "s": []}
@@ -222,6 +246,10 @@ class World:
     def feed(self, event, desc):
         self.step += 1
         self.seq += 1
+        src, self._feed_src = self._feed_src, None
+        if src is None or src != self.batch_src:
+            self.batch += 1
+        self.batch_src = src
         self.log.append((self.step, "ev") + desc)
         self.states.add(f"{desc[0]}|{len(self.outstanding)}|{sorted(type(c).__name__ for c in self.outstanding)}")
         try:
@@ -305,6 +333,7 @@ class World:
             if any(k[0] == c and k not in self.ended for k in self.pev) or any(k[0] == other(c) and k not in self.ended for k in self.pev):
                 self.probe("conn_close_with_open_streams")
             self.faults["conn_close"] = self.faults.get("conn_close", 0) + 1
+            self._feed_src = c
             self.feed(QuicConnectionClosed(conn, int(op.get("code", 0)), None, "bye"), ("close", c, int(op.get("code", 0))))
             return
         if self.mitm_closed[c] is not None:
@@ -313,6 +342,7 @@ class World:
         if kind == "dgram":
             data = f"<d{c}#{len(self.dgram_sent[c])}>".encode()
             self.dgram_sent[c].append(data)
+            self._feed_src = c
             self.feed(events.DataReceived(conn, data), ("dgram", c))
             return
         sid = self.resolve_stream(c, op.get("stream", ["own", 0, False]))
@@ -324,21 +354,28 @@ class World:
         if unidirectional(sid) and not mine:
             self.skipped += 1   # receive-only for this peer
             return
+        if kind in ("late_reset", "late_fin", "late_data"):
+            self.late_event(c, conn, sid, kind, op)
+            return
         if key in self.ended:
             self.skipped += 1
             return
         if mine:
+            if key not in self.opened and any(k[0] == c and (k[1] & 3) == (sid & 3) for k in self.late):
+                self.probe("stream_opened_after_late_event")
             self.opened.setdefault(key, self.seq + 1)
         else:
             self.probe("peer_answered_on_mitm_stream")
         if not self.up["s"]:
             self.probe("events_queued_before_upstream_open")
+        self._feed_src = c
         if kind == "reset":
             code = int(op.get("code", 7))
             self.ended[key] = ("reset", self.seq + 1, code, self.step + 1)
             self.pev.setdefault(key, []).append((self.seq + 1, "reset", code))
             self.faults["reset"] = self.faults.get("reset", 0) + 1
             self.feed(QuicStreamReset(conn, sid, code), ("reset", c, sid, code))
+            self.end_batch[key] = self.batch
             return
         data = b""
         if kind in ("data", "data_fin"):
@@ -351,6 +388,59 @@ class World:
         if fin:
             self.ended[key] = ("fin", self.seq + 1, None, self.step + 1)
         self.feed(QuicStreamDataReceived(conn, sid, data, fin), (kind, c, sid, len(data)))
+        if fin:
+            self.end_batch[key] = self.batch
+
+    def late_event(self, c, conn, sid, kind, op):
+        """An event for a stream whose sending direction this peer already ended (see the module docstring for
+        what a transport can still deliver, and when)."""
+        key = (c, sid)
+        end = self.ended.get(key)
+        if end is None:
+            self.skipped += 1
+            return
+        if kind == "late_data" and end[0] != "reset":
+            self.skipped += 1   # a FIN is only delivered once all data up to the final size was delivered
+            return
+        if kind == "late_data" and not self.sent.get(key) and not self.sc.get("late_data_on_dataless_stream"):
+            # A stream whose very first frames are RESET_STREAM and then (overtaken) data is a separate, reported
+            # finding (replays/known/C30-data-after-reset-revives-aborted-nextlayer.json); it is only generated
+            # when the scenario asks for it so that it does not drown everything else.
+            self.skipped += 1
+            return
+        if kind == "late_data" and not self.sent.get(key):
+            # context for the known finding: every violation of such a run carries it in its key
+            self.probe("late_data_on_dataless_stream")
+        same_batch = self.batch_src == c and self.end_batch.get(key) == self.batch
+        if unidirectional(sid) and not same_batch:
+            self.skipped += 1   # receive-only stream: its state is discarded at the first transmit after it ended
+            return
+        mitm_dir_ended = any(o[2] in ("fin", "reset") for o in self.obs.get(key, []))
+        self.probe("event_after_own_end")
+        if unidirectional(sid) or mitm_dir_ended:
+            self.probe("event_after_full_close")
+        if not peer_initiated_at(c, sid):
+            self.probe("late_event_on_mitm_opened_stream")
+        self.faults["late_event"] = self.faults.get("late_event", 0) + 1
+        self._feed_src = c
+        if kind == "late_reset":
+            code = int(op.get("code", 7))
+            self.probe("late_reset_after_fin" if end[0] == "fin" else "duplicate_reset")
+            self.late.setdefault(key, []).append((self.seq + 1, "reset", code))
+            self.feed(QuicStreamReset(conn, sid, code), ("late_reset", c, sid, code))
+            return
+        data = b""
+        if kind == "late_data":
+            # in-order STREAM data that was overtaken by the RESET_STREAM; it belongs to the stream like any other data
+            n = self.sent_n.get(key, 0)
+            self.sent_n[key] = n + 1
+            data = f"<{c}{sid}#{n}>".encode() + b"." * int(op.get("n", 0))
+            self.sent.setdefault(key, bytearray()).extend(data)
+            self.probe("late_data_after_reset")
+        else:
+            self.probe("duplicate_fin")
+        self.late.setdefault(key, []).append((self.seq + 1, "data" if data else "fin", len(data)))
+        self.feed(QuicStreamDataReceived(conn, sid, data, kind == "late_fin"), (kind, c, sid, len(data)))
 
 
 # ---------------------------------------------------------------------------
@@ -414,6 +504,8 @@ def _signal_violations(W, E, P):
                 ended_obs = "reset"
             if a_dead is not None and a_dead < seq:
                 continue
+            if P is not None and any(k == "reset" and s < seq and code == arg for s, k, code in W.late.get(P, [])):
+                continue   # the paired peer did send this RESET_STREAM (after its FIN / repeating its reset)
             if end is None or end[1] > seq or end[0] != "reset" or end[2] != arg:
                 what = "none" if end is None or end[1] > seq else ("fin" if end[0] == "fin" else "other_code")
                 out.append(("reset_without_origin_reset", {"origin_end": what},
@@ -446,6 +538,33 @@ def oracle(W):
                 V("command_on_unopened_peer_stream", {"conn": c, "uni": unidirectional(sid)},
                   f"mitmproxy used stream id {sid} towards {c}: that id belongs to the peer's initiator class and the "
                   f"peer never opened it (wrong initiator bit for an id mitmproxy allocates)")
+    # 1b. "every client stream is relayed to exactly one server stream and vice versa": a stream mitmproxy opens
+    # towards one peer is the counterpart of a distinct stream the other peer opened, of the same class
+    # (initiator, directionality). So at any moment mitmproxy has opened at most as many streams of a class on one
+    # connection as the other peer has opened in that class on the other connection.
+    for c in ("c", "s"):
+        first = {}
+        for (cc, sid) in sorted(W.obs):
+            if cc != c or peer_initiated_at(c, sid):
+                continue
+            xs = [o[0] for o in _judged(W, (cc, sid)) if o[2] != "stop"]
+            if xs:
+                first[sid] = min(xs)
+        for k in range(4):
+            mine = sorted((t, sid) for sid, t in first.items() if (sid & 3) == k)
+            theirs = sorted((t, sid) for (cc, sid), t in W.opened.items() if cc == other(c) and (sid & 3) == k)
+            for j, (t, sid) in enumerate(mine):
+                have = [s for tt, s in theirs if tt < t]
+                if len(have) < j + 1:
+                    late = sorted(s for (cc, s) in W.late if cc == other(c) and (s & 3) == k) \
+                        + sorted(s for (cc, s) in W.late if cc == c and (s & 3) == k)
+                    V("stream_opened_without_peer_stream",
+                      {"conn": c, "uni": unidirectional(sid), "after_late_event": bool(late)},
+                      f"mitmproxy opened stream {sid} towards {c} as stream number {j + 1} of its class "
+                      f"({[s for _, s in mine[:j + 1]]}), but the peer at {other(c)} had opened only {len(have)} "
+                      f"stream(s) of that class ({have}): stream {sid} is not the counterpart of any stream"
+                      + (f"; events were delivered on already ended stream(s) {late}" if late else ""))
+                    break
     # 2. pairing observed from the payload tags
     for E, ol in sorted(W.obs.items()):
         c, sid = E
@@ -615,6 +734,9 @@ def execute(sc):
     data_streams = sum(1 for k, v in W.sent.items() if v)
     perturbed = bool(W.faults)
     W.probes["skipped_ops"] = W.skipped
+    if W.probes.get("late_data_on_dataless_stream"):
+        for v in W.violations:
+            v["key"] = dict(v["key"], late_data_on_dataless_stream=True)
     return {"violations": W.violations, "digest": digest(W.log), "nontrivial": data_streams >= 2 and perturbed,
             "faults": dict(W.faults), "probes": dict(W.probes), "sim_s": 0.0, "states": W.states}
 
@@ -622,12 +744,96 @@ def execute(sc):
 # ---------------------------------------------------------------------------
 # generate
 # ---------------------------------------------------------------------------
+LATE_KINDS = ["late_reset", "late_reset", "late_reset", "late_fin", "late_data"]
+
+
+def _gen_late(r, sc):
+    """Directed family: streams are ended by their opener (and, if bidirectional, by the answering peer too), the
+    hooks are (mostly) completed so that the stream is completely shut down, THEN further events for the same stream
+    id are delivered from either side (RESET_STREAM after FIN, repeated reset, retransmitted FIN, data overtaken by
+    the reset), and then new streams of the same class are opened."""
+    ops = []
+
+    def ev(c, ref, kind):
+        ops.append({"op": "ev", "conn": c, "stream": ref, "kind": kind, "n": r.choice([0, 0, 1, 5]),
+                    "code": r.choice([0, 7, 142])})
+
+    def dones(lo, hi):
+        for _ in range(r.randint(lo, hi)):
+            ops.append({"op": "done", "pick": r.choice([0, 0, 0, 0, 1, 2])})
+
+    if not sc["server_open"] and r.random() < 0.85:
+        ops.append({"op": "done", "pick": 0})
+    nxt = {}       # (conn, uni) -> next own stream index
+    answered = {"c": 0, "s": 0}   # bidirectional streams mitmproxy has (probably) opened towards that peer
+    for _ in range(r.randint(1, 2)):
+        c = r.choice(["c", "c", "s"])
+        o = other(c)
+        uni = r.random() < 0.3
+        idx = nxt.get((c, uni), 0)
+        nxt[(c, uni)] = idx + 1
+        ref = ["own", idx, uni]
+        end_kind = r.choice(["fin", "data_fin", "data_fin", "reset"])
+        if uni:
+            if r.random() < 0.6:
+                ev(c, ref, "data")
+                dones(0, 4)
+            ev(c, ref, end_kind)
+            # a receive-only stream: only the same datagram batch can still carry events for it
+            for _ in range(r.randint(1, 2)):
+                ev(c, ref, r.choice(LATE_KINDS))
+            dones(0, 5)
+        else:
+            pref = ["peer", answered[o]]
+            answered[o] += 1
+            opener_first = r.random() < 0.5
+            if opener_first:
+                ev(c, ref, end_kind)
+            else:
+                ev(c, ref, "data")
+            dones(2, 5)
+            if r.random() < 0.5:
+                ev(o, pref, "data")
+                dones(0, 2)
+            ev(o, pref, r.choice(["fin", "data_fin", "data_fin", "reset"]))
+            dones(0, 2)
+            if not opener_first:
+                ev(c, ref, end_kind)
+            dones(0, 4)
+            for _ in range(r.randint(1, 3)):
+                if r.random() < 0.65:
+                    ev(c, ref, r.choice(LATE_KINDS))
+                else:
+                    ev(o, pref, r.choice(LATE_KINDS))
+                if r.random() < 0.3:
+                    dones(1, 2)
+        # new streams of the same class after the late events
+        for _ in range(r.randint(0, 2)):
+            idx = nxt[(c, uni)]
+            nxt[(c, uni)] = idx + 1
+            ev(c, ["own", idx, uni], r.choice(["data", "data", "data_fin"]))
+            if not uni:
+                answered[o] += 1
+            dones(0, 3)
+    return ops[:MAX_OPS]
+
+
 def generate(rng, tier):
     r = rng.at("c30")
     force_raw = r.random() < 0.4
     sc = {"family": "c30-" + ("raw" if force_raw else "nl"), "force_raw": force_raw,
           "server_open": r.random() < 0.15, "open_error": r.random() < 0.03,
           "ignore": (not force_raw) and r.random() < 0.3, "immediate": r.random() < 0.08}
+    if r.random() < 0.3:
+        sc["family"] += "-late"
+        sc["open_error"] = False
+        sc["immediate"] = r.random() < 0.4
+        sc["ops"] = _gen_late(r, sc)
+        sc["tail"] = [r.randrange(0, 8) for _ in range(6)]
+        if rng.at("c30-dataless").random() < 0.15:
+            # also deliver overtaken data on a stream whose first frame was RESET_STREAM (known finding, keyed apart)
+            sc["late_data_on_dataless_stream"] = True
+        return sc
     nops = r.randint(3, MAX_OPS)
     p_done = r.choice([0.15, 0.3, 0.45, 0.6])
     # a small pool of streams so that events interleave on the same streams
@@ -654,6 +860,8 @@ def generate(rng, tier):
             else:
                 c, ref = r.choice(pool)
             kind = r.choice(["data", "data", "data", "data", "data_fin", "fin", "reset"])
+            if r.random() < 0.12:
+                kind = r.choice(LATE_KINDS)   # delivered only if that peer already ended this stream
             ops.append({"op": "ev", "conn": c, "stream": ref, "kind": kind, "n": r.choice([0, 0, 1, 5, 40]),
                         "code": r.choice([0, 7, 142])})
     sc["ops"] = ops
